@@ -29,6 +29,7 @@ import (
 	"github.com/ajitpratap0/GoSQLX/pkg/sql/tokenizer"
 
 	"verif/internal/core"
+	"verif/internal/gram"
 	"verif/internal/entry"
 	"verif/internal/lexcheck"
 	"verif/internal/lexconc"
@@ -167,6 +168,9 @@ func main() {
 	for _, g := range []string{"SELECT 'unterminated", "SELECT a FROM t\nWHERE b = \"open", "SELECT a,\n  b ^^ FROM t", "SELECT a FROM t WHERE x = 'a\nb", "SELECT 1e FROM t", "SELECT $tag$ never closed", "SELECT /* never closed"} {
 		byStage["lex"] = append(byStage["lex"], input{"lex", g, "garbage"})
 	}
+	// the pools also hold a sample of Select.tla's statement forms
+	run.Extra["model_statements_in_pools"] = gram.ExportForms(run)
+	defer os.Remove(os.Getenv("VERIF_EXTRA_STMTS"))
 	_, bad := stmts.Pools()
 	for i, b := range bad {
 		text := b.SQL
